@@ -12,12 +12,16 @@ from .c01 import C01
 from .common import USER
 
 PEOPLE = ['Alice Smith <alice@example.com>', 'Bob Jones <bob@example.org>',
-          'carol@test.net', 'Dave <dave@example.com>', 'eve@evil.example']
+          'carol@test.net', 'Dave <dave@example.com>', 'eve@evil.example',
+          # spellings a header parser may not give back as written
+          '<frank@example.com>', 'gina@example.com (Gina  G)',
+          '"Hal, Jr." <hal@example.com>']
 WORDS = ['alpha', 'beta', 'gamma', 'delta', 'report', 'invoice', 'hello',
          'world', 'meeting', 'lunch']
 NEEDLES = ['alice', 'ALICE', 'bob', 'example', 'smith', 'carol', 'test',
            'alpha', 'BETA', 'report', 'zzz', 'e', 'meet', 'hello world',
-           'org', 'dave', 'lunch', 'inv', 'x-token', 'subject']
+           'org', 'dave', 'lunch', 'inv', 'x-token', 'subject', '<frank',
+           'gina  g', '(gina', '"hal', 'jr."']
 ZONES = ['+0000', '-0800', '+0530', '+1300', '-1100']
 MONTHS = ['Jan', 'Feb', 'Mar', 'Apr', 'May', 'Jun', 'Jul', 'Aug', 'Sep', 'Oct',
           'Nov', 'Dec']
@@ -267,6 +271,17 @@ def _date_of(text: str, fmt: str, utc: bool):
     return dt.date()
 
 
+def normalised(name: str, value: str) -> str:
+    """The header value as Python's header registry gives it back - the
+    reading behind the listed finding F-C13-header-normalised, used only to
+    name that finding when the result differs from the text as written."""
+    from email.policy import SMTP
+    try:
+        return str(SMTP.header_fetch_parse(name, value))
+    except Exception:
+        return value
+
+
 def evaluate(tree, view: list, i: int, utc: bool) -> bool:
     """Does message view[i] (dict with uid, flags, m) satisfy the program?"""
     msg = view[i]
@@ -306,11 +321,15 @@ def evaluate(tree, view: list, i: int, utc: bool) -> bool:
                               for kv in m['headers'].items())
             return needle in hdrtext.lower() or needle in m['body'].lower()
         val = m['headers'].get(field.capitalize())
+        if val is not None and len(utc) > 2:
+            val = normalised(field, val)
         return val is not None and needle in val.lower()
     if k == 'header':
         name = tree[1].lower()
         for hk, hv in m['headers'].items():
             if hk.lower() == name:
+                if len(utc) > 2:
+                    hv = normalised(hk, hv)
                 return tree[2].lower() in hv.lower()
         return False
     if k == 'date':
@@ -507,6 +526,29 @@ def run_search(case: dict, trace: bool = False) -> dict:
                     ok = True
                     break
             if not ok:
+                norm_ok = False
+                for utc in readings:
+                    norm = {cur[j]['uid'] for j in range(len(cur))
+                            if cur[j]['uid'] not in hidden_uids
+                            and evaluate(tree, cur, j, tuple(utc)
+                                         + ('normalised',))}
+                    if norm <= got <= norm | {v['uid'] for v in cur
+                                               if v['uid'] in hidden_uids}:
+                        norm_ok = True
+                        break
+                if norm_ok:
+                    ctx.violate('C13', 'result', '%sSEARCH %s returned UIDs '
+                                '%s: that is the match against the header '
+                                'values as the header parser rewrites them, '
+                                'the text of the headers gives %s' % (
+                                    'UID ' if uid else '', toks_str(tree),
+                                    sorted(got), expected[0]),
+                                sig={'key': 'header-normalised'})
+                    # the listed finding: noted, and the remaining queries
+                    # of the case are still judged
+                    if live is not None:
+                        reported_gone |= {v['uid'] for v in view} - live
+                    continue
                 ctx.violate('C13', 'result', '%sSEARCH %s returned UIDs %s, '
                             'the evaluator says %s (own-zone dates) / %s '
                             '(other readings); view %s, hidden %s' % (
